@@ -469,7 +469,8 @@ func (h *Session) icmp6SendPacket(srcAddr Addr, dstAddr Addr, b []byte) error {
 	// All Neighbor Discovery packets must use link-local addresses (FE80::/64)
 	// and a hop limit of 255. Linux discards ND messages with hop limits different than 255.
 	hopLimit := uint8(64)
-	if dstAddr.IP.IsLinkLocalUnicast() || dstAddr.IP.IsLinkLocalMulticast() {
+	// RFC 4861: every Neighbor Discovery message (RS 133 .. Redirect 137) is sent with hop limit 255, whatever the destination
+	if dstAddr.IP.IsLinkLocalUnicast() || dstAddr.IP.IsLinkLocalMulticast() || (len(b) > 0 && b[0] >= 133 && b[0] <= 137) {
 		hopLimit = 255
 	}
 
